@@ -293,6 +293,27 @@ def check_case(res, case):
                 res.violation(f'{key}/gpu-order/level{li}', case, f'GPU kernel: thread order {list(order)[:8]}.. of level {li} gives different memory/activity than the CPU level function {nl}')
                 break
         res.count('gpu_launches')
+    # capture kernel: thread orders of the GPU capture launch vs the CPU capture of the same memory
+    if images:
+        final_c = images[-1][0]
+        ws.c[...] = final_c
+        ws.c_to_s(time=2.0)
+        s_cpu = np.array(ws.s, copy=True)
+        capk = wave_sim.wave_capture_gpu.func
+        grid = gs._grid_dim(gs.sims, gs.s_len)
+        del rec[:]; rec_launcher[grid, gs._block_dim]()
+        tcap = list(rec)
+        rows = list(ws.poppo_s_locs)
+        for oname, order in (('default', tcap), ('reverse', tcap[::-1]), ('ymajor', sorted(tcap, key=lambda t: (t[1], t[0])))):
+            g2 = fresh(True)
+            g2.c[...] = final_c
+            for (x, y) in order:
+                kyupy.cuda.x, kyupy.cuda.y = x, y
+                capk(g2.c, g2.s, g2.c_locs, g2.c_caps, g2.ppo_offset, np.float32(2.0), 0.0, 1)
+            res.transitions += 1; res.validated += 1
+            if rows and not np.array_equal(np.asarray(g2.s)[3:, rows], s_cpu[3:, rows]):
+                res.violation(f'{key}/gpu-capture-{oname}', case, f'GPU capture kernel under thread order {oname} differs from the CPU capture {nl}')
+        res.count('gpu_capture_orders')
     res.count('cases')
     if reuse: res.count('cases_with_reuse')
 
